@@ -30,7 +30,7 @@ CHECKS = {
  "C02": dict(
     level=TV, design="2/C02", engine="detref",
     technique="z3 polynomial-identity check of each derived ground-state expression (energy, MP amplitude, RE residual, 1-/2-particle expectation value) against explicit RSPT on occupation bit strings with symbolic integrals, orbital energies and lower-order amplitudes; z3 identity of the norm-factor order expansion with the series of 1/(1+x) obtained from c(1+x)=1; CrossHair on gen_term_orders",
-    text="Each expression returned by the real GroundState API is shown equal, for all integrals / orbital energies / lower-order amplitudes and all index assignments of a 2o2v (thorough: up to 3o3v) model, to the quantity computed by explicit determinant-space RSPT; orders <=3 in 2o2v quick, third-order singles in 3o3v and third-order doubles in 4o4v on a bounded number of target assignments (triples / quadruples couplings); up to 3o3v, energy 4 and expectation value 4 thorough; mp and re; with/without first-order singles; a second amplitude request for the same order and class on one object with shifted / swapped target names. The order expansion returned by expand_norm_factor is shown by z3 to be the lambda^n coefficient of 1/(1+x) for all overlap values (orders <=6/8/9 for min_order 1/2/3; thorough 8/11/12).",
+    text="Each expression returned by the real GroundState API is shown equal, for all integrals / orbital energies / lower-order amplitudes and all index assignments of a 2o2v (thorough: up to 3o3v) model, to the quantity computed by explicit determinant-space RSPT; orders <=3 in 2o2v quick, third-order singles in 3o3v and third-order doubles in 4o4v on a bounded number of target assignments (triples / quadruples couplings); the fourth-order one-particle expectation value (mp, 2o2v: two overlap factors in one term of the norm factor) quick; up to 3o3v, energy 4 and the fourth-order expectation value with first-order singles thorough; mp and re; with/without first-order singles; a second amplitude request for the same order and class on one object with shifted / swapped target names. The order expansion returned by expand_norm_factor is shown by z3 to be the lambda^n coefficient of 1/(1+x) for all overlap values (orders <=6/8/9 for min_order 1/2/3; thorough 8/11/12).",
     note="Induction over the order: lower-order wavefunctions are free amplitude unknowns in adcgen's documented convention. Canonical orbitals for MP amplitudes; inverse orbital-energy forms are shared free unknowns (sound). Quadruples (need 4o4v) outside."),
  "C04": dict(
     level=TV, design="2/C04", engine="tvsmt",
